@@ -26,15 +26,13 @@ from harness.core import coq_str, coq_list
 IMPORTS = ("From Coq Require Import ZArith.\n"
            "From Ford Require Import Base.Str Out.SettingsTypes Gen.Schema Out.Settings Corr.C15.")
 THEOREMS = [
-    "C15_schema_sound", "C15_int_roundtrip", "C15_md_toml_agree", "C15_md_toml_agree_every_option",
-    "C15_formats_agree_partial", "C15_formats_agree_refuted", "C15_config_scalar_list_refuted",
-    "C15_precedence", "C15_file_over_default", "C15_unknown_key_dropped", "C15_unknown_key_refuted_toml",
-    "C15_unknown_key_refuted_config", "C15_ill_typed_md_bool_named", "C15_ill_typed_md_dict_named",
-    "C15_ill_typed_refuted_toml", "C15_ill_typed_refuted_config", "C15_ill_typed_refuted_md_int",
-    "C15_md_int_error_unnamed", "C15_paths_relative_to_project", "C15_paths_anchored",
+    "C15_schema_sound", "C15_int_roundtrip", "C15_md_toml_agree", "C15_toml_config_agree", "C15_formats_agree",
+    "C15_precedence", "C15_file_over_default", "C15_unknown_key_dropped", "C15_unknown_key_dropped_toml",
+    "C15_unknown_key_dropped_config", "C15_ill_typed_md_bool_named", "C15_ill_typed_md_int_named",
+    "C15_ill_typed_md_dict_named", "C15_ill_typed_refuted_toml", "C15_ill_typed_refuted_config",
+    "C15_paths_relative_to_project", "C15_paths_anchored",
 ]
-REGIONS = {1: "config-skips-post-init", 2: "toml-values-unchecked", 3: "config-values-unchecked",
-           4: "md-int-error-unnamed", 5: "toml-unknown-key-aborts", 6: "config-unknown-key-silent"}
+REGIONS = {2: "toml-values-unchecked", 3: "config-values-unchecked"}
 UNMODELLED, MALFORMED = 1000, 2000
 
 
@@ -337,7 +335,7 @@ class Impl:
         cwd, pf, _ = self.where(variant)
         warned = []
         import ford.settings as S
-        saved = (os.getcwd(), sys.argv, ford.datetime, ford.subprocess, S.warn)
+        saved = (os.getcwd(), sys.argv, ford.datetime, ford.subprocess, S.warn, getattr(ford, "warn", None))
         orig_warn = S.warn
 
         def spy_warn(msg):
@@ -349,6 +347,8 @@ class Impl:
             os.chdir(cwd)
             sys.argv = ["ford", pf] + self.argv(cli, cfg, spec)
             ford.datetime, ford.subprocess, S.warn = FakeTime, FakeSubprocess, spy_warn
+            if saved[5] is not None:
+                ford.warn = spy_warn
             with contextlib.redirect_stdout(buf), contextlib.redirect_stderr(buf), warnings.catch_warnings():
                 warnings.simplefilter("ignore")
                 try:
@@ -364,7 +364,9 @@ class Impl:
                     return ["exc", type(e).__name__, str(e)]
         finally:
             os.chdir(saved[0])
-            sys.argv, ford.datetime, ford.subprocess, S.warn = saved[1:]
+            sys.argv, ford.datetime, ford.subprocess, S.warn = saved[1:5]
+            if saved[5] is not None:
+                ford.warn = saved[5]
 
     def baseline(self, spec):
         outs = [self.run("", None, None, [], v, spec) for v in (0, 1, 2)]
@@ -774,16 +776,8 @@ def e2e_exclude(chk, ctx):
         chk.count(("e2e-files", name), sample={"trial": name, "selected_cwd_project": sels[0], "selected_cwd_other": sels[1]})
         if not same:
             chk.disagreements += 1
-            if name.startswith("exclude-"):
-                bad_exclude = True
-                if not chk.known("exclude-depends-on-cwd", True):
-                    chk.violation("failing-input", {"what": "selected source files depend on the working directory",
-                                                    "trial": name, "lines": lines, "selected": sels}, True)
-            else:
-                chk.violation("failing-input", {"what": "selected source files depend on the working directory",
-                                                "trial": name, "lines": lines, "selected": sels}, True)
-    if not bad_exclude:
-        chk.known("exclude-depends-on-cwd", False)
+            chk.violation("failing-input", {"what": "selected source files depend on the working directory",
+                                            "trial": name, "lines": lines, "selected": sels}, True)
     shutil.rmtree(im.p / "src", ignore_errors=True)
     shutil.rmtree(im.p / "lib", ignore_errors=True)
 
@@ -942,27 +936,38 @@ def count_cases(chk, ctx):
 
 
 def witnesses(chk, ctx):
-    """replay the witnesses of the recorded findings on the implementation (KNOWN-FINDING lines)"""
+    """open findings: replay the witness (KNOWN-FINDING lines); repaired defects: the former witnesses are
+    regression inputs -- the defect coming back is a failing input"""
     im, sp = ctx.impl, ctx.spec
 
     def field(out, k):
         return out[1].get(k) if out[0] == "full" else None
+
+    def regression(key, what, bad, got):
+        chk.count(("regression", key), sample=None)
+        if bad:
+            chk.violation("failing-input", {"what": "a repaired defect is back: " + key, "input": what, "ford": got}, True)
     a = im.run("", "[extra.ford]\nmax_frontpage_items = \"4\"\n", None, [], 0, sp)
     chk.known("toml-values-unchecked", field(a, "max_frontpage_items") == ["S", "4"])
-    b = im.run("", None, "display = 'private'; src_dir = './s1'", [], 0, sp)
-    chk.known("config-values-unchecked", field(b, "display") == ["S", "private"])
-    chk.known("config-skips-post-init", b[0] == "full" and len(field(b, "src_dir")[1]) == 4)
+    g = im.run("", None, "graph = 'maybe'", [], 0, sp)
+    chk.known("config-values-unchecked", field(g, "graph") == ["S", "maybe"])
+    cfg = "display = 'Private'; src_dir = './s1'; project_url = 'https://x.org'; output_dir = 'out'"
+    b = im.run("", None, cfg, [], 0, sp)
+    t = im.run("", "[extra.ford]\n" + cfg.replace("; ", "\n") + "\n", None, [], 0, sp)
+    regression("config-skips-post-init", "--config \"" + cfg + "\" against the same lines in fpm.toml",
+               not (b[0] == "full" and t[0] == "full" and b[1] == t[1] and field(b, "display") == ["L", [["S", "private"]]]), [b, t])
     c = im.run("max_frontpage_items: four\n", None, None, [], 0, sp)
-    chk.known("md-int-error-unnamed", c[0] == "exc" and "max_frontpage_items" not in c[2])
-    d = im.run("", "[extra.ford]\nfoo = 1\n", None, [], 0, sp)
-    chk.known("toml-unknown-key-aborts", d[0] == "exc")
-    e = im.run("", None, "foo = 1", [], 0, sp)
-    chk.known("config-unknown-key-silent", e[0] == "full" and not e[2])
+    regression("md-int-error-unnamed", "max_frontpage_items: four", not (c[0] == "exc" and "max_frontpage_items" in c[2]), c)
+    d = im.run("", "[extra.ford]\nfoo = 1\nproject = \"p\"\n", None, [], 0, sp)
+    regression("toml-unknown-key-aborts", "fpm.toml: foo = 1", not (d[0] == "full" and d[2] == ["foo"] and field(d, "project") == ["S", "p"]), d)
+    e = im.run("", None, "foo = 1; project = 'p'", [], 0, sp)
+    regression("config-unknown-key-silent", "--config \"foo = 1\"", not (e[0] == "full" and e[2] == ["foo"] and field(e, "project") == ["S", "p"]), e)
 
 
 def run(chk):
     chk.translate(["t3_schema.py"])
-    ok = chk.build(["theories/Corr/C15.vo", "theories/Props/C15.vo"])
+    ok = chk.build(["theories/Corr/C15.vo"])      # the correspondence needs the model and the judges only
+    chk.build(["theories/Props/C15.vo"])
     chk.props("theories/Props/C15.v", THEOREMS)
     if chk.tier == "thorough":
         chk.coqchk(["Ford.Props.C15"])
